@@ -32,6 +32,8 @@ type pcWorld struct {
 	gate    chan struct{} // calls park here until released
 	parked  int
 	streams []*fakeStream
+	// failNext: the next NewStream on a connection fails (the connection itself stays intact)
+	failNext bool
 }
 
 func (g *gateConn) Invoke(ctx context.Context, rpc string, enc drpc.Encoding, in, out drpc.Message) error {
@@ -59,6 +61,13 @@ func (s *fakeStream) CloseSend() error                                  { return
 func (s *fakeStream) Close() error                                      { s.cancel(); return nil }
 
 func (g *gateConn) NewStream(ctx context.Context, rpc string, enc drpc.Encoding) (drpc.Stream, error) {
+	g.w.mu.Lock()
+	failing := g.w.failNext
+	g.w.failNext = false
+	g.w.mu.Unlock()
+	if failing {
+		return nil, errors.New("gateConn: NewStream failed")
+	}
 	g.w.enter(g.id)
 	sctx, cancel := context.WithCancel(context.Background())
 	st := &fakeStream{ctx: sctx, cancel: func() { g.w.leave(g.id); cancel() }}
@@ -112,6 +121,7 @@ func runPoolConn(c pcCase) (r pbt.Result) {
 	var mu sync.Mutex
 	var errsSeen []error
 	overlap := false
+	failedStreams := 0
 	for _, op := range c.Ops {
 		key := keys[op.Key%len(keys)]
 		switch op.Kind {
@@ -133,6 +143,17 @@ func runPoolConn(c pcCase) (r pbt.Result) {
 				fail("NewStream through the pool failed")
 				return
 			}
+		case "failstream":
+			// a stream that cannot be opened: the connection it was tried on goes back to the pool
+			w.mu.Lock()
+			w.failNext = true
+			w.mu.Unlock()
+			pc := p.Get(context.Background(), key, dial)
+			if st, err := pc.NewStream(context.Background(), "rpc", nil); err == nil || st != nil {
+				fail("harness: failing NewStream succeeded")
+				return
+			}
+			failedStreams++
 		case "endstream":
 			w.mu.Lock()
 			var st *fakeStream
@@ -230,6 +251,9 @@ func runPoolConn(c pcCase) (r pbt.Result) {
 	if overlap {
 		r.Label("overlapping_calls")
 	}
+	if failedStreams > 0 {
+		r.Label("stream_could_not_be_opened")
+	}
 	r.Label(fmt.Sprintf("dialed_%d", minI(n, 3)))
 	r.NonTrivial = overlap && n >= 2
 	r.Key = fmt.Sprintf("%+v", c)
@@ -247,7 +271,7 @@ func TestC15PoolConn(t *testing.T) {
 	gen := func(t *rapid.T) pcCase {
 		return pcCase{Capacity: rapid.SampledFrom([]int{0, 1, 2, 3}).Draw(t, "cap"), KeyCapacity: rapid.SampledFrom([]int{0, 1, 2}).Draw(t, "keycap"),
 			Ops: rapid.SliceOfN(rapid.Custom(func(t *rapid.T) pcOp {
-				return pcOp{Kind: rapid.SampledFrom([]string{"invoke", "invoke", "invoke", "stream", "endstream", "release", "release"}).Draw(t, "kind"), Key: rapid.IntRange(0, 1).Draw(t, "key"), N: rapid.IntRange(0, 5).Draw(t, "n")}
+				return pcOp{Kind: rapid.SampledFrom([]string{"invoke", "invoke", "invoke", "stream", "endstream", "release", "release", "failstream"}).Draw(t, "kind"), Key: rapid.IntRange(0, 1).Draw(t, "key"), N: rapid.IntRange(0, 5).Draw(t, "n")}
 			}), 1, 16).Draw(t, "ops")}
 	}
 	pbt.Check(t, pbt.Prop[pcCase]{ID: "C15", Name: "poolconn", Gen: gen, Run: runPoolConn})
